@@ -325,3 +325,8 @@ func Run(h func()) (failures []string, obs []string, panicked any, assumeEnded b
 	h()
 	return
 }
+
+// SteerRand makes the library object's private *math/rand.Rand field (found by type, not by name) draw its
+// words from the replay file, so that internal random choices (skip-list tower heights) follow the
+// counterexample.  No-op under the engine, where math/rand is a symbolic stub.
+func SteerRand(obj any) { steerRand(obj) }
